@@ -104,7 +104,7 @@ def check(prop, tier):
         if v["v"] == "MISMATCH":
             bad += 1
             if bad <= 3:
-                msg = [s["in"]["b"] for s in t["steps"]]
+                msg = [s["in"].get("b", "<empty>") for s in t["steps"]]
                 out.violation("crc7(%s) prefix %d: expected %s observed %s" % (msg, v["l"], v["exp"], v["obs"]),
                               {"kind": "trace_mismatch", "module": "Crc7", "property": prop, "verdict": v,
                                "trace": {"shape": {}, "steps": t["steps"][:v["l"]]},
@@ -121,7 +121,7 @@ def check(prop, tier):
                        "of every length); conformance: all 256 one-byte messages, one two-byte message per model transition "
                        "(128 x 256), all 65536 two-byte messages as bytes/bytearray, messages ending in text-frame / padding suffixes, random messages up to 64 bytes in eight container kinds; non-trivial = at least two bytes; "
                        "distinct by hash of the message")
-    out.cov["samples"] = [{"message": [s["in"]["b"] for s in t["steps"]], "running_crc": [s["out"]["c"] for s in t["steps"]]}
+    out.cov["samples"] = [{"message": [s["in"].get("b", "<empty>") for s in t["steps"]], "running_crc": [s["out"]["c"] for s in t["steps"]]}
                           for t in (traces[5], traces[700], traces[-1])]
     out.notes["acceptor_states"] = st["states"]
     out.assumptions += ["the lookup table is read from the imported module (robotpy_ext.misc.crc7._crc7_table) and is the object "
@@ -135,7 +135,7 @@ def replay(path):
     rp = json.load(open(path))
     if rp.get("kind") == "model_on_code_table":
         return check(rp["property"], "quick")
-    msg = [s["in"]["b"] for s in rp["trace"]["steps"]]
+    msg = [s["in"]["b"] for s in rp["trace"]["steps"] if s["in"].get("e", "byte") == "byte"]
     wd = tlc.workdir("crc")
     table = os.path.join(wd, "table.json")
     run_driver("crc_driver.py", ["--table", table], cwd=wd)
